@@ -139,7 +139,7 @@ def judge_queue(sh: Shard, rig, regime, e0, label, final=True):
     late_max = REGIMES[regime][0]
     put, pops = {}, {}
     for ev in q.events[e0:]:
-        kind, i, t, data, hname, task, ok = ev
+        kind, i, t, data, hname, task, ok = ev[:7]
         if kind == "put":
             put[i] = (t, data)
         else:
